@@ -339,7 +339,8 @@ class Env:
     def uniflags(self, c):
         """(expects a reply, what `_reply_compare_frame` tests, is a Compare command)"""
         return (1 if c.response is not None else 0,
-                1 if (hasattr(c, "_cmdval") and c._cmdval == self.gg.Compare._cmdval) else 0,
+                1 if (isinstance(c, self.gg._SpecialCommand) and len(c.frame) == 16 and
+                      (c.frame.as_integer >> 8) == (self.gg.Compare().frame.as_integer >> 8)) else 0,
                 1 if isinstance(c, self.gg.Compare) else 0)
 
     def unisend(self, drv, backend, c):
